@@ -52,6 +52,7 @@ def correspondence(ctx, model_ok, tmp):
     rng = ctx.rng
     b = repo.make_butler(os.path.join(tmp, "r"))
     repo.basic_dimensions(b, detectors=(1, 2, 3))
+    repo.basic_dimensions(b, instrument="J", detectors=(1, 2, 3))  # data-ID keys 11..13 are detectors 1..3 of instrument J
     reg = b.registry
     req, impl = [], []
     n_hist = 20 if ctx.quick() else 500
@@ -80,7 +81,13 @@ def correspondence(ctx, model_ok, tmp):
         }
 
         def data_id(t, k):
-            return {} if o_types.get(t) == 2 else {"instrument": "I", "detector": k}
+            if o_types.get(t) == 2:
+                return {}
+            return {"instrument": "J", "detector": k - 10} if k > 10 else {"instrument": "I", "detector": k}
+
+        def key_of(ref):
+            d = ref.dataId.get("detector")
+            return 0 if d is None else (d + 10 if ref.dataId["instrument"] == "J" else d)
 
         def keys_for(t):
             return [0] if o_types.get(t) == 2 else [1, 2, 3]
@@ -122,7 +129,7 @@ def correspondence(ctx, model_ok, tmp):
         for step in range(n_steps):
             c = None
             # pick the operation kind by weight among those that make sense now, then map it onto the thresholds below
-            kinds = [("regcoll", 0.07, 5), ("regtype", 0.18, 3), ("insert", 0.3, 16)]
+            kinds = [("regcoll", 0.07, 5), ("regtype", 0.18, 3), ("insert", 0.3, 16), ("multi", 0.985, 6)]
             if refs:
                 kinds += [("import", 0.47, 6), ("assoc", 0.6, 20), ("disassoc", 0.7, 12), ("rmds", 0.8, 6)]
             kinds += [("rmcoll", 0.87, 4), ("chain", 0.93, 4)]
@@ -329,6 +336,54 @@ def correspondence(ctx, model_ok, tmp):
                     out = "err CollectionTypeError"  # unknown parent: the model has one "not a chain" refusal
                 except Exception as e:
                     out = classify(e)
+            elif r > 0.98:
+                # one call that creates several datasets at once: insertDatasets over data IDs of two instruments, or
+                # _importDatasets of new datasets of two dataset types — only with free slots in an existing RUN, so that
+                # the whole call is accepted and equals the same inserts one by one
+                runs_ = [c_ for c_, k_ in o_colls.items() if k_ == "R"]
+                dim_types = [t_ for t_, d_ in o_types.items() if d_ == 0]
+                if not runs_ or not dim_types:
+                    continue
+                c = rng.choice(runs_)
+                taken = {(ty, kk) for ty, kk, rr in o_ds.values() if rr == c}
+                if rng.random() < 0.5 or len(dim_types) < 2:
+                    t = rng.choice(dim_types)
+                    free = [k_ for k_ in (1, 2, 3, 11, 12, 13) if (t, k_) not in taken]
+                    ks = rng.sample(free, min(len(free), rng.choice([2, 3])))
+                    if len(ks) < 2 or not any(k_ > 10 for k_ in ks) or not any(k_ < 10 for k_ in ks):
+                        continue
+                    items = [(t, k_) for k_ in ks]
+                    try:
+                        new_refs = reg.insertDatasets(tname(t), [data_id(t, k_) for k_ in ks], run=cname(c))
+                    except Exception as e:
+                        viol(f"after {ops[-4:]}: insertDatasets(type {t}, data IDs {ks} of two instruments, run {c}) in one call -> {type(e).__name__}: "
+                             f"{str(e)[:100]} although every slot is free", f"multi-insert:{ops}", {"kind": "history", "ops": ops + [f"multi-insert {t} {ks} {c}"]})
+                        continue
+                else:
+                    import uuid as _uuid
+
+                    t1, t2 = rng.sample(dim_types, 2)
+                    items = []
+                    for t_ in (t1, t2):
+                        free = [k_ for k_ in (1, 2, 3) if (t_, k_) not in taken]
+                        if free:
+                            items.append((t_, rng.choice(free)))
+                    if len(items) < 2:
+                        continue
+                    try:
+                        new_refs = reg._importDatasets([DatasetRef(defs[0](t_), data_id(t_, k_), run=cname(c), id=_uuid.uuid4()) for t_, k_ in items])
+                    except Exception as e:
+                        viol(f"after {ops[-4:]}: _importDatasets of new datasets {items} (two dataset types) into run {c} in one call -> {type(e).__name__}: "
+                             f"{str(e)[:100]} although every slot is free", f"multi-import:{ops}", {"kind": "history", "ops": ops + [f"multi-import {items} {c}"]})
+                        continue
+                for (t_, k_), ref in zip(items, new_refs):
+                    refs[next_id] = ref
+                    o_ds[next_id] = (t_, k_, c)
+                    req.append(f"reg insert {next_id} {t_} {k_} {c}"), impl.append("ok")
+                    ops.append(f"insert {next_id} {t_} {k_} {c}")
+                    next_id += 1
+                ctx.count("multi-dataset-call")
+                line, out, want = None, "ok", None
             elif o_stored:
                 i = rng.choice(sorted(o_stored))
                 line = f"reg unstore {i}"
@@ -341,11 +396,14 @@ def correspondence(ctx, model_ok, tmp):
                     out = classify(e)
             else:
                 continue
-            ops.append(line[4:])
-            req.append(line)
-            impl.append(out)
+            if line is not None:
+                ops.append(line[4:])
+                req.append(line)
+                impl.append(out)
+                ctx.count(line.split()[1])
+            else:
+                line = "reg multi"
             ctx.evaluations += 1
-            ctx.count(line.split()[1])
             flags.add("refused" if out.startswith("err") else "accepted")
             # ---- oracle verdict on the reply
             if want is not None:
@@ -378,7 +436,7 @@ def correspondence(ctx, model_ok, tmp):
                             byid = {rf.id: i for i, rf in refs.items()}
                             got = sorted(byid[x.id] for x in rows)
                             bad_identity = [byid[x.id] for x in rows if byid[x.id] in o_ds and
-                                            (x.run != cname(o_ds[byid[x.id]][2]) or (x.dataId.get("detector") or 0) != o_ds[byid[x.id]][1])]
+                                            (x.run != cname(o_ds[byid[x.id]][2]) or key_of(x) != o_ds[byid[x.id]][1])]
                             obs.append((",".join(map(str, got)) or "-", bad_identity))
                         except MissingCollectionError:
                             obs.append(("err MissingCollectionError", []))
